@@ -156,12 +156,62 @@ def lru_assembly(ctx, rr):
     if h is None or d is None:
         raise AnalysisError('anchor vanished: helpers.lru_iter / lru_dirname')
     ys = [y for y in P.own(h, ast.Yield)]
-    lv = [f.target.id for f in P.own(h, ast.For) if isinstance(f.target, ast.Name)]
-    ok = len(ys) == 1 and len(lv) == 1 and isinstance(ys[0].value, ast.Subscript) and isinstance(ys[0].value.slice, ast.Slice) and \
-        ast.unparse(ys[0].value.slice.upper).replace(' ', '') in ('%s+1' % lv[0], '1+%s' % lv[0])
-    rr.ob(ctx.where(h), 'lru_iter yields stems including their closing separator', ok=ok)
-    if not ok:
-        rr.fail(ctx.finding('R-LRU-ASSEMBLY', h, h.node, 'lru_iter no longer yields each stem with its closing separator', stmt='lru_iter'))
+
+    def lin(e):
+        """linear form {name: coef, '': const} of an index expression, or None"""
+        if isinstance(e, ast.Constant) and isinstance(e.value, int):
+            return {'': e.value}
+        if isinstance(e, ast.Name):
+            return {e.id: 1, '': 0}
+        if isinstance(e, ast.BinOp) and isinstance(e.op, (ast.Add, ast.Sub)):
+            a_, b_ = lin(e.left), lin(e.right)
+            if a_ is None or b_ is None:
+                return None
+            sg = 1 if isinstance(e.op, ast.Add) else -1
+            out_ = dict(a_)
+            for k_, v_ in b_.items():
+                out_[k_] = out_.get(k_, 0) + sg * v_
+            return {k_: v_ for k_, v_ in out_.items() if v_ or k_ == ''}
+        return None
+    # the byte tested against the separator is lru[C:D]; the stem yielded is lru[A:B]: B must be D (the separator is included) and
+    # the next stem starts at B
+    tests = [c for c in ast.walk(h.node) if isinstance(c, ast.Compare) and isinstance(c.left, ast.Subscript) and isinstance(c.left.slice, ast.Slice)
+             and isinstance(c.comparators[0], ast.Constant) and c.comparators[0].value in (b'|', '|')]
+    if len(ys) != 1 or len(tests) != 1 or not (isinstance(ys[0].value, ast.Subscript) and isinstance(ys[0].value.slice, ast.Slice)):
+        # the known wrong rewrite: split on the separator and drop the empty pieces (a stem that is the separator alone disappears,
+        # so stored LRUs with an empty stem are shortened)
+        splits = [f for f in P.own(h, ast.For) if any(isinstance(c_, ast.Call) and isinstance(c_.func, ast.Attribute) and c_.func.attr == 'split' for c_ in ast.walk(f.iter))]
+        if splits and isinstance(splits[0].target, ast.Name):
+            v_ = splits[0].target.id
+            drops = [i_ for i_ in ast.walk(splits[0]) if isinstance(i_, ast.If) and any(isinstance(x, ast.Name) and x.id == v_ for x in ast.walk(i_.test))
+                     and not any(isinstance(x, ast.Compare) for x in ast.walk(i_.test))]
+            if drops:
+                rr.ob(ctx.where(h), 'lru_iter yields every stem, also an empty one', ok=False)
+                rr.fail(ctx.finding('R-LRU-ASSEMBLY', h, drops[0], 'lru_iter splits on the separator and skips empty pieces: an empty stem (`||`) vanishes from every LRU that has one, so the '
+                                    'stored LRU differs from the submitted one', stmt='lru_iter'))
+                ys = None
+        if ys is not None:
+            raise AnalysisError('R-LRU-ASSEMBLY: helpers.lru_iter is not a single-yield scan for the separator byte')
+    if ys is None:
+        B = D = C = None
+    else:
+        B, D, C = lin(ys[0].value.slice.upper) if ys[0].value.slice.upper is not None else None, lin(tests[0].left.slice.upper), lin(tests[0].left.slice.lower)
+    if ys is not None:
+        if B is None or D is None or C is None:
+            raise AnalysisError('R-LRU-ASSEMBLY: index arithmetic of helpers.lru_iter is not linear')
+
+        def norm(d_):
+            return {k_: v_ for k_, v_ in d_.items() if v_}
+        one = dict(D)
+        one[''] = one.get('', 0) - 1
+        ok = norm(B) == norm(D) and norm(C) == norm(one)
+        A = ys[0].value.slice.lower
+        if ok and isinstance(A, ast.Name):
+            upd = [a for a in P.own(h, ast.Assign) if any(isinstance(t, ast.Name) and t.id == A.id for t in a.targets) and not (isinstance(a.value, ast.Constant))]
+            ok = len(upd) == 1 and lin(upd[0].value) is not None and norm(lin(upd[0].value)) == norm(B)
+        rr.ob(ctx.where(h), 'lru_iter yields stems including their closing separator', ok=ok)
+        if not ok:
+            rr.fail(ctx.finding('R-LRU-ASSEMBLY', h, h.node, 'lru_iter no longer yields each stem with its closing separator', stmt='lru_iter'))
     ok = any(isinstance(x, ast.Subscript) and isinstance(x.slice, ast.Slice) and x.slice.lower is None and ast.unparse(x.slice.upper) == '-1' for x in ast.walk(d.node))
     rr.ob(ctx.where(d), 'lru_dirname drops exactly the last stem', ok=ok)
     if not ok:
